@@ -4,8 +4,10 @@
      read_write_srt     : Forall repr_item l -> l <> [] -> Z.of_nat (length l) <= max_int64 ->
                           exists data, write_srt l = Ok data /\ read_srt data = Ok (renumber_truncate l)
    repr_run / repr_line / repr_doc_line / repr_item are the hypotheses; repr_itemb ... are executable versions
-   (repr_itemb_ok).  The predicates only contain what the proof over the model needs: they do not exclude '&' in a
-   colour or NUL bytes, which lie outside the tokenizer model's faithful domain (Kit.Html.html_simple). *)
+   (repr_itemb_ok).  The predicates keep the written lines inside the tokenizer model's faithful domain
+   (Kit.Html.html_simple, proved in Proofs/SrtSimple.v: repr_line_simple): a colour has no double quote, no '&' (the real
+   tokenizer unescapes character references inside attribute values, the writer does not escape them), no CR
+   (converted to LF inside attribute values) and no NUL byte; the text of a run has no NUL byte. *)
 From Coq Require Import List ZArith NArith Lia Bool Arith.
 From Astisub Require Import Kit.Base Kit.Str Kit.Html Kit.Scan Model.Dur Model.Srt.
 From Astisub Require Import Proofs.DurProofs Proofs.ScanProofs Proofs.SrtEscProofs.
@@ -236,13 +238,17 @@ Qed.
 Global Opaque tokc.
 
 (* ================= representable runs and lines ================= *)
-Definition col_ok (c : str) : Prop := c <> [] /\ ~ In 34 c.
+(* a colour the writer can put between the quotes of the font tag's color attribute and that every HTML tokenizer reads back
+   unchanged: not empty (the writer omits the tag), no double quote (ends the value), no '&' (start of a character reference: the real tokenizer
+   unescapes them inside attribute values and the writer does not escape), no CR (the real tokenizer turns it into LF), no NUL *)
+Definition col_ok (c : str) : Prop := c <> [] /\ ~ In 34 c /\ ~ In 38 c /\ ~ In 13 c /\ ~ In 0 c.
 Definition repr_run (r : srun) : Prop :=
   sr_pos r = 0 /\ trim_space (escape_html (sr_text r)) <> [] /\
   match sr_sty r with
   | None => True
   | Some a => sa_styled a = true /\ match sa_col a with None => True | Some c => col_ok c end
-  end.
+  end /\
+  ~ In 0 (sr_text r).
 Definition has_tags (r : srun) : bool := match sr_sty r with Some _ => true | None => false end.
 Fixpoint no_adj (l : list srun) : Prop :=
   match l with
@@ -288,13 +294,13 @@ Lemma tokc_run_tagged r rest cur : repr_run r -> has_tags r = true ->
   tokc (run_bytes r ++ rest) cur = flush cur ++ run_toks r ++ tokc rest [].
 Proof.
   intros Hr Ht. pose proof (repr_run_esc_nonnil r Hr) as Hne.
-  destruct Hr as (Hp & _ & Hs). unfold run_bytes, run_toks. rewrite Hp. change (0 =? 0) with true. cbv iota.
+  destruct Hr as (Hp & _ & Hs & _). unfold run_bytes, run_toks. rewrite Hp. change (0 =? 0) with true. cbv iota.
   pose proof (escape_no_lt (sr_text r)) as Hlt.
   set (e := escape_html (sr_text r)) in *. clearbody e.
   unfold has_tags in Ht. destruct (sr_sty r) as [a|]; [|discriminate]. destruct Hs as (Hst & Hc).
   destruct a as [b i u col]. cbn [sa_b sa_i sa_u sa_col] in *. unfold sa_styled in Hst. cbn [sa_b sa_i sa_u sa_col] in Hst.
   destruct col as [c|].
-  - destruct Hc as (Hcne & Hq). destruct c as [|c0 c]; [contradiction|]. set (cc := c0 :: c) in *. clearbody cc.
+  - destruct Hc as (Hcne & Hq & _). destruct c as [|c0 c]; [contradiction|]. set (cc := c0 :: c) in *. clearbody cc.
     destruct b, i, u; cbv iota; rewrite <- ?app_assoc; cbn [app tag_open tag_close];
       rewrite (tokc_font' cc _ cur Hq);
       repeat (first [ rewrite (tokc_open 98 _ _ biu98) | rewrite (tokc_open 105 _ _ biu105) | rewrite (tokc_open 117 _ _ biu117)
@@ -360,7 +366,7 @@ Proof. intros H. cbn [parse_toks]. destruct (trim_space raw); [contradiction | r
 Lemma parse_run_toks r T acc : repr_run r ->
   parse_toks (run_toks r ++ T) sa0 acc = parse_toks T sa0 (r :: acc).
 Proof.
-  intros (Hp & Hne & Hs). destruct r as [text sty pos]. cbn [sr_pos sr_text sr_sty] in *. subst pos.
+  intros (Hp & Hne & Hs & _). destruct r as [text sty pos]. cbn [sr_pos sr_text sr_sty] in *. subst pos.
   unfold run_toks. cbn [sr_sty sr_text].
   destruct sty as [a|].
   - destruct Hs as (Hst & Hc). destruct a as [b i u col]. cbn [sa_b sa_i sa_u sa_col] in *.
@@ -946,13 +952,16 @@ Definition is_nil {A} (l : list A) : bool := match l with [] => true | _ => fals
 Lemma is_nil_false {A} (l : list A) : is_nil l = false -> l <> [].
 Proof. destruct l; [discriminate | discriminate]. Qed.
 
-Definition col_okb (c : str) : bool := negb (is_nil c) && negb (existsb (N.eqb 34) c).
+Definition col_okb (c : str) : bool :=
+  negb (is_nil c) && negb (existsb (N.eqb 34) c) && negb (existsb (N.eqb 38) c) && negb (existsb (N.eqb 13) c) &&
+  negb (existsb (N.eqb 0) c).
 Definition repr_runb (r : srun) : bool :=
   (sr_pos r =? 0) && negb (is_nil (trim_space (escape_html (sr_text r)))) &&
   match sr_sty r with
   | None => true
   | Some a => sa_styled a && match sa_col a with None => true | Some c => col_okb c end
-  end.
+  end &&
+  negb (existsb (N.eqb 0) (sr_text r)).
 Fixpoint no_adjb (l : list srun) : bool :=
   match l with
   | r1 :: ((r2 :: _) as t) => (has_tags r1 || has_tags r2) && no_adjb t
@@ -968,17 +977,25 @@ Definition repr_itemb (it : sitem) : bool :=
   (0 <=? si_st it)%Z && (si_st it <=? max_int64)%Z && (0 <=? si_en it)%Z && (si_en it <=? max_int64)%Z &&
   forallb repr_doc_lineb (si_lines it).
 
+Lemma negb_existsb_not_in k s : negb (existsb (N.eqb k) s) = true -> ~ In k s.
+Proof.
+  intros H Hin. apply negb_true_iff in H.
+  assert (E : existsb (N.eqb k) s = true) by (apply existsb_exists; exists k; split; [exact Hin | apply N.eqb_refl]).
+  rewrite E in H. discriminate.
+Qed.
 Lemma col_okb_ok c : col_okb c = true -> col_ok c.
 Proof.
-  unfold col_okb, col_ok. intros H. apply andb_true_iff in H. destruct H as [H1 H2].
-  apply negb_true_iff in H1, H2. split; [apply is_nil_false; exact H1|].
-  intros Hin. assert (E : existsb (N.eqb 34) c = true) by (apply existsb_exists; exists 34; split; [exact Hin | reflexivity]).
-  rewrite E in H2. discriminate.
+  unfold col_okb, col_ok. intros H. apply andb_true_iff in H. destruct H as [H H5]. apply andb_true_iff in H. destruct H as [H H4].
+  apply andb_true_iff in H. destruct H as [H H3]. apply andb_true_iff in H. destruct H as [H1 H2].
+  apply negb_true_iff in H1. split; [apply is_nil_false; exact H1|].
+  repeat split; apply negb_existsb_not_in; assumption.
 Qed.
 Lemma repr_runb_ok r : repr_runb r = true -> repr_run r.
 Proof.
-  unfold repr_runb, repr_run. intros H. apply andb_true_iff in H. destruct H as [H H3]. apply andb_true_iff in H. destruct H as [H1 H2].
+  unfold repr_runb, repr_run. intros H. apply andb_true_iff in H. destruct H as [H H0]. apply andb_true_iff in H. destruct H as [H H3].
+  apply andb_true_iff in H. destruct H as [H1 H2].
   apply N.eqb_eq in H1. apply negb_true_iff in H2. split; [exact H1|]. split; [apply is_nil_false; exact H2|].
+  split; [|apply negb_existsb_not_in; exact H0].
   destruct (sr_sty r) as [a|]; [|exact I]. apply andb_true_iff in H3. destruct H3 as [H3 H4]. split; [exact H3|].
   destruct (sa_col a); [apply col_okb_ok; exact H4 | exact I].
 Qed.
